@@ -332,6 +332,10 @@ def run(prop, seed, budget, ctx):
         rf, rn, rd, rh = rec_conv.run_part(prop, seed, budget)
         failures += rf; evaluations += rn; distinct |= rd
         for k_, v_ in rh.items(): hist[k_] += v_
+        import generics
+        gf, gn, gd, gh = generics.run_part(prop, seed, budget)
+        failures += gf; evaluations += gn; distinct |= gd
+        for k_, v_ in gh.items(): hist[k_] += v_
     if prop == "C07":
         from schema_conv import run_conv_schema
         cf, cn = run_conv_schema(rnd, seed, budget, hist, distinct, build_module); failures += cf; evaluations += cn
